@@ -21,7 +21,7 @@ def gen_case(rng, idx, d):
                 (d.encode() + b"/nodir/x.sock", False, False), (b"x" * 120, False, False)]
 
     def tcp_forms():
-        return [(b"127.0.0.1:0", True, False), (b":0", True, False), (b"127.0.0.1:%d" % port, True, True), (b"256.1.1.1:0", False, False),
+        return [(b"127.0.0.1:0", True, False), (b":0", True, False), (b"", True, False), (b"127.0.0.1:", True, False), (b":", True, False), (b":00", True, False), (b"127.0.0.1:%d" % port, True, True), (b"256.1.1.1:0", False, False),
                 (b"127.0.0.1", False, False), (b"127.0.0.1:notaport", False, False)]
 
     def rand_addr():
@@ -41,6 +41,7 @@ def gen_case(rng, idx, d):
     ops = []
     served = None
     running = False
+    closed_listener = False     # Shutdown on a bound service that is not serving closes the listener but keeps the field: DoListen on it is not part of the statement
     for _ in range(rng.choice([2, 4, 6, 10])):
         r = rng.random()
         if r < 0.4:
@@ -48,18 +49,27 @@ def gen_case(rng, idx, d):
             ops.append(("bind", a, ok, kind))
             if kind in ("unix", "tcp") and ok and not running:
                 served = (a, conn)
+                closed_listener = False
         elif r < 0.5 and not running:
             a, ok, conn, kind = rand_addr()
             ops.append(("listen", a, ok, kind))
             if kind in ("unix", "tcp") and ok:
                 served, running = (a, conn), True
+                closed_listener = False
         elif r < 0.6:
-            ops.append(("start",))
-            running = running or served is not None
+            if not closed_listener:
+                ops.append(("start",))
+                running = running or served is not None
         elif r < 0.72:
-            ops.append(("stop",))
-            if running:
+            if rng.random() < 0.35:
+                # Shutdown whether or not the service is serving: a bound listener is closed and its socket file removed
+                ops.append(("shutdown",))
+                closed_listener = (not running) and served is not None
                 served = None
+            else:
+                ops.append(("stop",))
+                if running:
+                    served = None
             running = False
         elif r < 0.86:
             if served and served[1] and rng.random() < 0.7:
@@ -98,11 +108,39 @@ def refusal(a):
     return proto == b"unix" and rest.split(b";")[0] == b""
 
 
+def fs_path(a):
+    """the filesystem socket path an address string names, or None"""
+    if not a.startswith(b"unix:"):
+        return None
+    pth = a[5:].split(b";")[0]
+    return pth if pth and not pth.startswith(b"@") else None
+
+
+def released_oracle(ops, res):
+    """'a filesystem socket path is removed again when the service is shut down', read directly off the history"""
+    current, released = None, set()
+    for o, r in zip(ops, res):
+        if o[0] in ("bind", "listen") and r == "ok":
+            current = fs_path(o[1])
+            released.discard(current)
+        elif (o[0] == "stop" and r == "stopped") or (o[0] == "shutdown" and r in ("stopped", "shutdown")):
+            if current is not None:
+                released.add(current)
+            current = None
+        elif o[0] == "stale":
+            released.discard(o[1])
+        elif o[0] == "exists" and o[1] in released and r != "0":
+            return "the socket file %r still exists after the service was shut down" % o[1]
+        elif o[0] == "connect" and fs_path(o[1]) in released and r == "ok":
+            return "a client still reaches the service through %r after it was shut down" % o[1]
+    return None
+
+
 def main(pid, argv):
     ck = V.Check(pid, argv)
-    ck.rule = ("histories of Bind / Listen / DoListen / Shutdown / NewConnection+GetInfo / file-existence checks on one Service object in a scratch directory, with "
+    ck.rule = ("histories of Bind / Listen / DoListen / Shutdown (of a serving and of a merely bound service) / NewConnection+GetInfo / file-existence checks on one Service object in a scratch directory, with "
                "address strings from a grammar: protocol in {unix, tcp, other, empty, missing}; unix paths empty, '@name', '@', relative, absolute, in a missing "
-               "directory, over-long; tcp hosts with port 0, fixed port, bad host, missing port; with and without ';parameter' tails; plus random strings; with and "
+               "directory, over-long; tcp hosts with port 0, empty host and/or empty port, fixed port, bad host, missing port; with and without ';parameter' tails; plus random strings; with and "
                "without a pre-existing (stale) socket file. distinct = distinct histories; non-trivial = history with a successful bind")
     ck.assumptions = ["whether listen(2) succeeds on a well-formed endpoint is an oracle bit supplied by the generator (existing directory, path length, host syntax, free port)",
                       "the filesystem and the abstract / port namespaces are an abstract map in the model"]
@@ -145,6 +183,7 @@ def main(pid, argv):
                 if o[0] in ("bind", "listen") and refusal(o[1]) and r not in ("err", "already"):
                     bad = "%s(%r) must be refused, got %s" % (o[0], o[1], r)
                     break
+            bad = bad or released_oracle(ops, res)
         if bad:
             nf += 1
             ck.fail("addr-history", line, bad, impl=il[:600], model=ml[:600])
